@@ -181,6 +181,33 @@ theorem C09_lock_discipline : lockDisciplineOk XmppModel.Generated.C09.lockFacts
 example : lockOk ("xmpp.(*lockWriteCloser).Close", "release-plain", 2) = false := by decide
 example : lockOk ("xmpp.(*Session).Encode", "handoff", 0) = false := by decide
 
+/-! ## Round F: every response a function obtains is closed or handed on, on every path
+
+The other half of the `handshake` of `C09_root_serve_channel_waits_escape`: the serve goroutine
+waits until the party that took a response closes it.  Regenerated (`harness/c09/respfacts.go`):
+every call in scope whose result is an `xmlstream.TokenReadCloser`, with how the result is
+disposed of on every path from there to a return or to the end of the function - `defer`,
+`closed` (every path closes it or hands it on in its return statement), `handed-on` (stored:
+the holder's duty).  A path that returns with the response open (`violation:…`) wedges Serve
+for ever; findings 7, 11, 16 and the seeded C09-11 were of that kind and were found by the
+watchdog only.  No names consumed.  Not covered: responses behind iterators (`xmlstream.Iter`,
+the `Close` of the iterator types) and the holder's side of `handed-on`. -/
+
+def responseKindOk (k : String) : Bool := k == "defer" || k == "closed" || k == "handed-on"
+
+def responsesOk : Option (List (String × String)) → Bool
+  | some l => l.all (fun f => responseKindOk f.2) && l.any (fun f => f.2 == "defer") &&
+      l.any (fun f => f.2 == "closed")
+  | none => false
+
+theorem C09_responses_closed_on_every_path :
+    responsesOk XmppModel.Generated.C09.responseFacts = true := by
+  decide +kernel
+
+example : responsesOk (some [("a", "defer"), ("b", "closed"),
+    ("commands.(Command).ExecuteIQ", "violation:a return leaves the response open (line 72)")]) = false := by
+  decide
+
 /-! ## Round E: every mutex of the handler packages is released on every path
 
 The same classification as above, run over every package that has wait-for sets (history, ibb,
